@@ -43,3 +43,11 @@ claim("C17",
  "Proof for every policy, group set and time: ExpiredShardGroups returns exactly (sound and complete, via ghost witness positions) the pointers to groups that are not deleted and whose EndTime+Duration is before t, and nothing when Duration==0; DeletedShardGroups returns exactly the deleted groups; both leave the metadata untouched (frame). The retention service loop and liveness ('eventually') are not decided.",
  "time.Time modelled as an instant (nanos); Add/Before/IsZero trusted.",
  "DESIGN.md 3/C17")
+claim("C04",
+ "Proof, for all inputs: unmarshalWrite never panics on any block bytes and terminates; marshalWrite always emits the 8-byte shard header; NodeProcessor.WriteShard's bisection hands the points to the queue in contiguous, in-order chunks and reports success only when every point was handed over (ghost counter), terminating; queue.loadSegments returns the segments in id order whatever order the directory lists them (sort.Sort modelled by the type's own Less); queue.Empty is true exactly when no block is pending (on disk or buffered). Crash points, torn writes, purge by age and the concurrent buffered path are NOT decided.",
+ "os/bytes.Buffer/file-system calls are assumed contracts without a file model; queue.Append is an assumed contract at WriteShard's call site; newSegment is assumed to return a fresh segment with the requested id.",
+ "DESIGN.md 3/C04")
+claim("C06",
+ "Proof for every metadata value satisfying the stated well-formedness preconditions: Data.CreateShardGroup creates a group whose range contains the timestamp and is disjoint from the effective range of every live (non-deleted, possibly truncated) group of the policy; the group ID and the shard IDs are the next unused counter values (counters are incremented first and never decrease); every shard gets exactly clamp(ReplicaN,1,#nodes) owners. The shardN search loop's bound (shardN <= #nodes) is an ASSUMED invariant (number-theoretic; listed in the evidence), owner distinctness/evenness and determinism of the whole FSM are not decided yet.",
+ "Preconditions: #nodes <= 4096, ID counters far from 2^64, every RetentionPolicyInfo has ReplicaN >= 0 and ShardGroupDuration > 0, truncated groups have TruncatedAt <= EndTime. Nonlinear products/divisions are kept abstract (uf_mul/uf_rem with valid bounds). sort.Sort of the group list happens after the checked point.",
+ "DESIGN.md 3/C06")
